@@ -8,7 +8,7 @@ from ..framework import Check
 from .c13 import nl_lines
 from .. import families, lib, reglib, blocklib as bl
 
-TMP = os.path.join(lib.WORK, "tmp_c16")
+TMP = os.path.join(lib.SCRATCH, "tmp_c16")
 ENCODINGS = ["utf-8", "latin-1", "cp1252", "utf-16"]
 WORDS = {"utf-8": ["çãé", "naïve €", "٣٤ 😀", "plain", "a\x85b", "x\u2028y", "p\x0cq", "s\x1ct", "u\u2029v"],
          "utf-16": ["çãé", "naïve €", "٣٤ 😀", "plain", "a\x85b", "x\u2028y", "p\x0bq"],
